@@ -209,6 +209,16 @@ static int vh_main(int argc, char **argv, int fileidx) {
         if (ordinal++ < first) continue;
         nscripts++;
         vh_cur_step = -1; vh_cur_op = "begin";
+        {   /* grow the token builders OUTSIDE the measured window: the largest expected token of this script, with slack */
+            size_t need = 1 << 16; int q;
+            for (q = 0; q < n; q++) {
+                size_t a = strlen(steps[q].exp_state), b = strlen(steps[q].exp_ret);
+                if (a * 2 + 4096 > need) need = a * 2 + 4096;
+                if (b * 2 + 4096 > need) need = b * 2 + 4096;
+            }
+            if (getenv("VH_TOKEN_MAX") && (size_t) atol(getenv("VH_TOKEN_MAX")) > need) need = (size_t) atol(getenv("VH_TOKEN_MAX"));
+            sb_reset(&ret); sb_reset(&state); sb_need(&ret, need); sb_need(&state, need);
+        }
         h0 = vh_heap();
         vh_in_script = 1;
         alarm((unsigned) vh_watchdog_s);
